@@ -1,0 +1,34 @@
+//go:build verif
+
+package hsms
+
+// This file exists only under the `verif` build tag. It exports a seam for the external
+// verification harness (/verif, property C07): it adds code only and changes no production
+// behaviour.
+
+// VerifHookReact makes the supervisor of c's CURRENT Open cycle call before(prev, next) at the start
+// of every reaction (connection.react), i.e. after the supervisor has stored the new state and
+// before the reaction runs (for a transition into NotConnected: before the farewell decision, the
+// reconnect-loop start and the generation teardown). The harness uses it to hold the connection in
+// the window "state already NotConnected, generation ctx and socket still live". It must be called
+// after Open, at a quiescent point (no state transition in flight: the field is plain). It reports
+// false when c is not the engine's connection or no supervisor exists.
+func VerifHookReact(c Connection, before func(prev, next ConnState)) bool {
+	cc, ok := c.(*connection)
+	if !ok {
+		return false
+	}
+
+	s := cc.sup.Load()
+	if s == nil {
+		return false
+	}
+
+	orig := s.react
+	s.react = func(prev, next ConnState) {
+		before(prev, next)
+		orig(prev, next)
+	}
+
+	return true
+}
